@@ -371,13 +371,12 @@ def _prod(a, axis=None, **kw):
 
 
 def fftfreq(n, d=1.0):
+    """exact j/(n d): also for concrete d, so that 1/3 is one third and not the nearest double"""
     n = n.__index__() if isinstance(n, SNum) else int(n)
-    if not is_sym(d):
-        return np.fft.fftfreq(n, d)
     out = np.empty(n, dtype=object)
     for i in range(n):
         j = i if i < (n + 1) // 2 else i - n
-        out[i] = SNum(z3.RealVal(j) / (z3.RealVal(n) * _real(_z(d))))
+        out[i] = SNum(z3.simplify(z3.RealVal(j) / (z3.RealVal(n) * _real(_z(d)))))
     return out
 
 
